@@ -263,6 +263,10 @@ def witness_pairs():
 WIRE_NAMES = ["_id", "_key", "from", "class", "camelCase", "schema", "modelDump", "copy", "plain", "UPPER", "with_under", "a1b2"]
 
 
+# operation names with upper-case runs and digits: method, module and result class are derived from one name each
+ACRONYM_OPERATIONS = ["getUserByID", "listHTTPCodes", "XMLExport", "get2FAStatus", "fetch_URL_v2"]
+
+
 def bounded_wire_names(tier, seed):
     """`every GraphQL name that becomes a Python name ... the original name stays the wire name`: end to end, snake-casing on
     and off: response keys, input fields, variables (incl. a variable of a custom scalar with a serializer) and enum
@@ -278,7 +282,8 @@ def bounded_wire_names(tier, seed):
     var_defs = ", ".join(f"${n}: String" for n in WIRE_NAMES)
     var_use = ", ".join(f"{n}: ${n}" for n in WIRE_NAMES)
     q = (f"query Q($i: In, {var_defs}, $createdAfter: Stamp, $from_stamp: Stamp) {{ item(i: $i, {var_use}, createdAfter: $createdAfter, from_stamp: $from_stamp) "
-         f"{{ {' '.join(WIRE_NAMES)} e firstCopy: plain second_copy: plain left: sub {{ plain }} rightSide: sub {{ e }} }} }}")
+         f"{{ {' '.join(WIRE_NAMES)} e firstCopy: plain second_copy: plain left: sub {{ plain }} rightSide: sub {{ e }} }} }}"
+         + "".join(f" query {n} {{ item {{ plain }} }}" for n in ACRONYM_OPERATIONS))
     cases, fails = 0, []
     for snake in (True, False):
         cases += 1
@@ -343,6 +348,18 @@ def bounded_wire_names(tier, seed):
                     bad.append(f"two-aliases-of-one-object-field-keep-their-own-selections: left.plain={lp!r} rightSide.e={re_!r}")
             except Exception as e:      # noqa
                 bad.append(f"two-aliases-of-one-object-field-keep-their-own-selections: {type(e).__name__}: {str(e)[:120]}")
+            for opname in ACRONYM_OPERATIONS:
+                key = opname.replace("_", "").lower()
+                meth = [a for a in dir(client) if a.replace("_", "").lower() == key]
+                if len(meth) != 1:
+                    bad.append(f"operation-has-one-method: {opname} -> {meth}")
+                    continue
+                data = {"item": {"plain": "p-" + opname}}
+                r2 = asyncio.run(getattr(client, meth[0])())
+                if sent[-1].get("operationName") != opname or f"query {opname}" not in sent[-1]["query"]:
+                    bad.append(f"operation-name-stays-the-wire-name: {opname} sent as {sent[-1].get('operationName')!r}")
+                if getattr(getattr(r2, "item", None), "plain", None) != "p-" + opname:
+                    bad.append(f"operation-result-readable: {opname}")
             en = g.module("enums").E
             if {x.value for x in en} != {"from", "class", "_x", "Plain"}:
                 bad.append("enum-values-keep-their-graphql-names")
